@@ -232,6 +232,25 @@ def op_likebatch(js, table):
     return res
 
 
+def op_pyescape(q, name):
+    return enc_str(rbql_engine.python_string_escape_column_name(dec_str(name), '"' if q == 'd' else "'"))
+
+
+def op_pyeval(q, body):
+    import ast
+    qc = '"' if q == 'd' else "'"
+    b = dec_str(body)
+    if '\x00' in b:
+        return 'N'
+    try:
+        v = ast.literal_eval(qc + b + qc)
+    except (SyntaxError, ValueError):
+        return 'N'
+    if not isinstance(v, str):
+        return 'N'
+    return 'S' + enc_str(v)
+
+
 def op_readboth(pol, enc, hdr, modi, d, comment, text):
     t = dec_str(text)
     data = t.encode('utf-8' if enc == 'utf-8' else 'latin-1')
@@ -239,7 +258,7 @@ def op_readboth(pol, enc, hdr, modi, d, comment, text):
     return read_result(stream, encoding, pol, hdr, modi, 1024, dec_str(d), None if comment == '~' else dec_str(comment))
 
 
-OPS = {'readboth': op_readboth, 'likebatch': op_likebatch, 'write': op_write, 'roundtrip': op_roundtrip, 'split': op_split, 'quote': op_quote, 'unquote': op_unquote, 'readpy': op_readpy, 'readpyall': op_readpyall}
+OPS = {'readboth': op_readboth, 'pyescape': op_pyescape, 'pyeval': op_pyeval, 'likebatch': op_likebatch, 'write': op_write, 'roundtrip': op_roundtrip, 'split': op_split, 'quote': op_quote, 'unquote': op_unquote, 'readpy': op_readpy, 'readpyall': op_readpyall}
 
 
 RAW_OPS = {}   # ops whose single argument is the rest of the line (JSON payloads)
